@@ -130,6 +130,23 @@ void runCase(long long i, Prng& r, const Args& a) {
       X.lminus(Y, Ja, Jb); manif::lminus(X, Y, Fa, Fb); same("manif::lminus-J", bitEq(Ja, Fa) && bitEq(Jb, Fb));
       X.compose(Y, Ja, Jb); manif::compose(X, Y, Fa, Fb); same("manif::compose-J", bitEq(Ja, Fa) && bitEq(Jb, Fb));
       X.inverse(Ja); manif::inverse(X, Fa); same("manif::inverse-J", bitEq(Ja, Fa));
+      // Jacobian outputs of the member aliases and of the tangent-side forms reach the right argument:
+      // t.plus(X, J_t, J_X) and t.lplus(X, J_t, J_X) are X.lplus(t, J_X, J_t); t.rplus(X, J_t, J_X) is X.rplus(t, J_X, J_t)
+      typename MonG::Jacobian Lm, Lt, Rm, Rt, A1, A2;
+      X.lplus(t, Lm, Lt); X.rplus(t, Rm, Rt);
+      t.plus(X, A1, A2); same("t.plus(X)-J", bitEq(A1, Lt) && bitEq(A2, Lm));
+      t.lplus(X, A1, A2); same("t.lplus(X)-J", bitEq(A1, Lt) && bitEq(A2, Lm));
+      t.rplus(X, A1, A2); same("t.rplus(X)-J", bitEq(A1, Rt) && bitEq(A2, Rm));
+      X.plus(t, A1, A2); same("plus-J", bitEq(A1, Rm) && bitEq(A2, Rt));
+      X.rminus(Y, Ja, Jb); X.minus(Y, A1, A2); same("minus-J", bitEq(A1, Ja) && bitEq(A2, Jb));
+      manif::minus(X, Y, A1, A2); same("manif::minus-J", bitEq(A1, Ja) && bitEq(A2, Jb));
+      manif::lplus(X, t, A1, A2); same("manif::lplus-J", bitEq(A1, Lm) && bitEq(A2, Lt));
+      manif::plus(X, t, A1, A2); same("manif::plus-J", bitEq(A1, Rm) && bitEq(A2, Rt));
+      X.between(Y, Ja, Jb); manif::between(X, Y, A1, A2); same("manif::between-J", bitEq(A1, Ja) && bitEq(A2, Jb));
+      X.log(Ja); manif::log(X, A1); same("manif::log-J", bitEq(A1, Ja));
+      t.exp(Ja); manif::exp(t, A1); same("manif::exp-J", bitEq(A1, Ja));
+      // only one of the two outputs requested, through the tangent-side form
+      { typename MonG::Jacobian B1; t.plus(X, B1, MonG::_); same("t.plus(X)-J_t-only", bitEq(B1, Lt)); t.plus(X, MonG::_, B1); same("t.plus(X)-J_X-only", bitEq(B1, Lm)); }
       Eigen::Matrix<MonS, MonG::Dim, MonG::DoF> Am, Fm; Eigen::Matrix<MonS, MonG::Dim, MonG::Dim> Ap, Fp;
       X.act(p, Am, Ap); manif::act(X, p, Fm, Fp); same("manif::act-J", bitEq(Am, Fm) && bitEq(Ap, Fp));
     }
